@@ -1383,7 +1383,7 @@ def _bkey(f):
 
 _MODEL_NAMES = re.compile(r"\b(SInt|SBool|SBytes|SStr|SReal|SOpaque|SByteArray|SIntStr|SymRange|SymSet|SymList|SymDict|SymODict|"
                           r"SymArray|SymBytesIO|SymProtocol|Blob|AbstractSeq|AbsDeque|AbsItem|ByteReader|InStream|"
-                          r"ArbitraryStream|ShortReadStream|OutSocket|Ghost\w+|Abs[A-Z]\w+|Sym[A-Z]\w+)\b")
+                          r"ArbitraryStream|ShortReadStream|OutSocket|IdxMap|TwoPointMap|VersionsMap|Ghost\w+|Abs[A-Z]\w+|Sym[A-Z]\w+)\b")
 
 
 _TEMPLATES = {}
